@@ -219,6 +219,16 @@ class MetadataPdu(AbstractFileDirectiveBase):
         # Minimal length: 1 byte + FSS (4 byte) + 2 empty LV (1 byte)
         if len(data) < min_expected_len:
             raise BytesTooShortError(min_expected_len, len(data))
+        # Only the declared PDU without the CRC trailer contains directive parameters.
+        end_of_params = metadata_pdu.packet_len
+        if metadata_pdu.pdu_file_directive.pdu_conf.crc_flag == CrcFlag.WITH_CRC:
+            end_of_params -= 2
+        data = data[:end_of_params]
+        min_params_end = current_idx + 7
+        if metadata_pdu.pdu_file_directive.pdu_conf.file_flag == LargeFileFlag.LARGE:
+            min_params_end += 4
+        if len(data) < min_params_end:
+            raise BytesTooShortError(min_params_end, len(data))
         params = MetadataParams(False, ChecksumType.MODULAR, 0, "", "")
         params.closure_requested = bool(data[current_idx] & 0x40)
         params.checksum_type = ChecksumType(data[current_idx] & 0x0F)
